@@ -338,7 +338,14 @@ func (r *replayer) budgetCase(c Case) {
 					r.sum.Stats["successful runs whose created elements were counted"]++
 				}
 				if m.Optimize {
-					// (the reference counts what the unoptimized program creates; a folded constant is not created by the run)
+					// (the reference counts what the unoptimized program creates; a folded constant is not created by the
+					// run, so an optimized run may complete where the reference refuses - but optimizing never makes a
+					// run need MORE: a refusal of a run the reference admits is a refusal of a run that needs fewer)
+					if refused && rc.Exp.Ok {
+						exp := rc.Exp
+						r.fail(Failure{Why: "optimized-refused-under-budget", Src: c.Src, Mode: m.String(), Env: rc.Env, Budget: rc.Budget,
+							Exp: &exp, Got: &g, DevMatch: devMatches(g, rc.Dev, false)})
+					}
 					continue
 				}
 				switch {
